@@ -38,7 +38,7 @@ Proof.
   - destruct (low_ix ix st) as [ix'|e]; cbn [bind] in H; [|discriminate].
     destruct (take st) as [[t s1]|e] eqn:Ht; cbn [bind] in H; [|discriminate].
     inversion H; subst. cbn in Hk. destruct Hk as [<-|[]]. eapply take_free; eauto.
-  - destruct (alook r (l_rf st)); inversion H; subst. destruct Hk.
+  - destruct (rf_lookup r st); inversion H; subst. destruct Hk.
   - destruct (alook v (l_lv st)); inversion H; subst. destruct Hk.
 Qed.
 
@@ -94,6 +94,7 @@ Proof.
     destruct (low_meas q ip false st0) as [[[m c0] s1]|e] eqn:Em; cbn [bind] in H; [|discriminate].
     inv_ok H. rewrite sws_app, (low_meas_writes _ _ _ _ _ _ _ Em) in Hk. destruct Hk.
   - intros q ip r _ st c st' H k Hk. cbn [lower_stmt] in H.
+    destruct (alook r (l_rf st)); [discriminate|].
     destruct (low_meas q ip true st) as [[[m c0] s1]|e] eqn:Em; cbn [bind] in H; [|discriminate].
     inv_ok H. rewrite (low_meas_writes _ _ _ _ _ _ _ Em) in Hk. destruct Hk.
   - intros q _ st c st' H k Hk. cbn [lower_stmt] in H.
@@ -113,7 +114,7 @@ Proof.
       * eapply free_take; [exact Ht|]. eapply low_src_writes; eauto.
       * destruct m; cbn in Hk; destruct Hk as [<-|[]]; eapply take_free; eauto.
   - (* SRegAdd *) intros r o m _ st c st' H k Hk. cbn [lower_stmt] in H.
-    destruct (alook r (l_rf st)) as [[[] k0]|]; try discriminate.
+    destruct (rf_lookup r st) as [[[] k0]|]; try discriminate.
     destruct (low_src o st) as [[[[lo y] ts] st1]|e] eqn:Hs; cbn [bind] in H; [|discriminate].
     match type of H with Ok (?cc, _) = _ => assert (Ec : c = cc) by (inversion H; reflexivity) end.
     clear H. subst c. rewrite sws_map_XI, flat_map_app in Hk. apply in_app_or in Hk. destruct Hk as [Hk|Hk].
@@ -142,6 +143,7 @@ Proof.
          [exact Wy|eapply free_take; eauto] ]).
   - (* SLoop *) intros cb v oreg start stop step body IH Hp st code st' H k Hk. destruct oreg; [discriminate|].
     cbn [plain] in Hp. specialize (IH Hp). cbn [lower_stmt] in H.
+    destruct (alook v (l_lv st)); [discriminate|].
     destruct (take st) as [[r st1]|e] eqn:Ht; cbn [bind] in H; [|discriminate].
     destruct (lower_block fd body (bind_lvr v r st1)) as [[cbody st2]|e] eqn:Hb; cbn [bind] in H; [|discriminate].
     destruct (is_nil cbody); inv_ok H; [destruct Hk|].
@@ -150,6 +152,7 @@ Proof.
     eapply IH; eauto.
   - (* SForeach *) intros enum v a body IH Hp st code st' H k Hk. cbn [plain] in Hp. specialize (IH Hp). cbn [lower_stmt] in H.
     destruct (alook a (l_len st)); [|discriminate].
+    destruct (alook v (l_lv st)); [discriminate|].
     destruct (take st) as [[r st1]|e] eqn:Ht; cbn [bind] in H; [|discriminate].
     destruct (lower_block fd body (bind_lvr v r st1)) as [[cbody st2]|e] eqn:Hb; cbn [bind] in H; [|discriminate].
     destruct (is_nil cbody); inv_ok H; [destruct Hk|].
@@ -158,6 +161,7 @@ Proof.
     eapply IH; eauto.
   - (* SLoopUntil *) intros v maxit body IHb cx bound cleanup IHc Hp st code st' H k Hk. cbn [plain] in Hp.
     apply andb_prop in Hp. destruct Hp as [Hp1 Hp2]. specialize (IHb Hp1). specialize (IHc Hp2). cbn [lower_stmt] in H.
+    destruct (alook v (l_lv st)); [discriminate|].
     destruct (take st) as [[r st1]|e] eqn:Ht; cbn [bind] in H; [|discriminate].
     destruct (lower_block fd body (bind_lvr v r st1)) as [[cbody st2]|e] eqn:Hb; cbn [bind] in H; [|discriminate].
     destruct (is_nil cbody); [inv_ok H; destruct Hk|].
